@@ -10,10 +10,11 @@ Expression nodes (tuples):
   ('cast', tyname, ty, e) ('un', op, e) ('bin', op, a, b) ('shift', op, a, b) ('cmp', op, a, b)
   ('log', op, a, b) ('not', e) ('tern', c, a, b) ('macro', name, args, ty) ('call', name, args, ty)
   ('post', var, op) ('stmtexpr', tyname, ty, var, e) ('load', tyname, ty, signch, width)
+  ('seqexpr', name, [ext tokens], [args], val)      ({ name(exts..., args...); val; })  -- name: a void sub-routine
 Statement nodes:
   ('decl', tyname, ty, var, e|None) ('assign', lhs_expr, op, e) ('store', width, addr_expr|None, e)
   ('if', c, [stmts], [stmts]|None) ('for', var, bound_expr, [stmts]) ('jump', e) ('raw', text)
-  ('exprstmt', e) ('block', [stmts])
+  ('exprstmt', e) ('block', [stmts]) ('vcall', name, [ext tokens], [args])   name(exts..., args...);
 """
 from __future__ import annotations
 
@@ -49,6 +50,9 @@ ASSIGN_OPS = ["+=", "-=", "*=", "&=", "|=", "^=", "<<=", ">>="]
 CALLS = [("clo32", [(False, 32)], (False, 32)), ("clz32", [(False, 32)], (False, 32)), ("clo64", [(False, 64)], (False, 64)),
          ("clz64", [(False, 64)], (False, 64)), ("revbit32", [(False, 32)], (False, 32)), ("revbit16", [(False, 16)], (False, 16)),
          ("fbrev", [(False, 32)], (False, 32)), ("conv_round", [(True, 32), (True, 32)], (True, 32))]
+# registered sub-routines with return type void: (name, number of pass-through (external) parameters, value parameter types)
+VOID_CALLS = [("set_usr_field", 2, [(False, 32)]), ("trap", 0, [(True, 32), (False, 32)])]
+VOID_PARAMS = {n: ps for n, _, ps in VOID_CALLS}
 MACROS = [("sextract64", 3, (True, 64)), ("extract64", 3, (False, 64)), ("extract32", 3, (False, 32)),
           ("deposit32", 4, (False, 32)), ("deposit64", 4, (False, 64)), ("bswap32", 1, (False, 32)), ("bswap16", 1, (False, 16)),
           ("bswap64", 1, (False, 64))]
@@ -96,6 +100,8 @@ def ctype(e):
         return e[2]
     if k == "load":
         return e[2]
+    if k == "seqexpr":
+        return ctype(e[4])
     raise ValueError(k)
 
 
@@ -129,6 +135,8 @@ def src(e) -> str:
         return f"({{ {e[1]} {e[3]} = {src(e[4])}; {e[3]}; }})"
     if k == "load":
         return f"(({e[1]})mem_load_{e[3]}{e[4]}(EA))"
+    if k == "seqexpr":
+        return f"({{ {e[1]}({', '.join(list(e[2]) + [src(a) for a in e[3]])}); {src(e[4])}; }})"
     raise ValueError(k)
 
 
@@ -175,6 +183,8 @@ def stmt_src(s) -> str:
         return f"return {src(s[1])};"
     if k == "block":
         return "{ " + " ".join(stmt_src(x) for x in s[1]) + " }"
+    if k == "vcall":
+        return f"{s[1]}({', '.join(list(s[2]) + [src(a) for a in s[3]])});"
     raise ValueError(k)
 
 
@@ -280,7 +290,11 @@ def expr_features(e, out: set, ctx="value"):
         for x in (a, b):
             if x[0] == "stmtexpr" and (len(x) <= 5 or x[5]):
                 out.add("stmtexpr_arm_fresh_local")   # the arm's value local is set only inside the guarded statement
-            if _has_hybrid(x) and x[0] != "stmtexpr":
+            if x[0] == "seqexpr":
+                # the call is guarded by BRANCH, the value is pure: only hybrids inside the arguments / the value run unguarded
+                if any(_has_hybrid(y) for y in x[3]) or _has_hybrid(x[4]):
+                    out.add("hybrid_in_ternary_arm")
+            elif _has_hybrid(x) and x[0] != "stmtexpr":
                 out.add("hybrid_in_ternary_arm")
             if x[0] == "stmtexpr" and _has_hybrid(x[4]):
                 out.add("hybrid_in_ternary_arm")
@@ -303,6 +317,12 @@ def expr_features(e, out: set, ctx="value"):
         expr_features(e[4], out)
         if _conv_risky(ctype(e[4]), e[2]):
             out.add("signed_widen_to_unsigned")
+    elif k == "seqexpr":
+        for a, pt in zip(e[3], VOID_PARAMS[e[1]]):
+            expr_features(a, out)
+            if _conv_risky(ctype(a), pt):
+                out.add("signed_widen_to_unsigned")
+        expr_features(e[4], out)
     return out
 
 
@@ -326,7 +346,7 @@ def folds(e) -> bool:
 
 def _has_hybrid(e) -> bool:
     k = e[0]
-    if k in ("call", "post", "stmtexpr"):
+    if k in ("call", "post", "stmtexpr", "seqexpr"):
         return True
     for x in e[1:]:
         if isinstance(x, tuple) and x and isinstance(x[0], str) and x[0] in _EXPR_KINDS and _has_hybrid(x):
@@ -338,7 +358,7 @@ def _has_hybrid(e) -> bool:
     return False
 
 
-_EXPR_KINDS = {"reg", "imm", "lit", "var", "cast", "un", "bin", "shift", "cmp", "log", "not", "tern", "macro", "call", "post", "stmtexpr", "load"}
+_EXPR_KINDS = {"reg", "imm", "lit", "var", "cast", "un", "bin", "shift", "cmp", "log", "not", "tern", "macro", "call", "post", "stmtexpr", "load", "seqexpr"}
 
 
 def _bare_stmtexprs(e, under_tern_arm=False) -> bool:
@@ -346,6 +366,8 @@ def _bare_stmtexprs(e, under_tern_arm=False) -> bool:
     k = e[0]
     if k == "stmtexpr":
         return (not under_tern_arm) or _bare_stmtexprs(e[4])
+    if k == "seqexpr":
+        return (not under_tern_arm) or any(_bare_stmtexprs(a) for a in e[3]) or _bare_stmtexprs(e[4])
     if k == "tern":
         return _bare_stmtexprs(e[1]) or _bare_stmtexprs(e[2], True) or _bare_stmtexprs(e[3], True)
     for x in e[1:]:
@@ -439,6 +461,17 @@ def stmt_features(s, out: set):
     elif k == "block":
         for x in s[1]:
             stmt_features(x, out)
+    elif k == "vcall":
+        for a, pt in zip(s[3], VOID_PARAMS[s[1]]):
+            expr_features(a, out)
+            if _conv_risky(ctype(a), pt):
+                out.add("signed_widen_to_unsigned")
+            if _bare_stmtexprs(a):
+                out.add("stmt_expr_bare")
+            if _has_hybrid(a):
+                # the call statement is not checked for pending temporaries on its own: they are set at the front of
+                # the enclosing block / of the behaviour
+                out.add("unused_hybrid")
     return out
 
 
@@ -538,6 +571,8 @@ def _stmt_exprs(s):
         return [s[1]]
     if k == "block":
         return [e for x in s[1] for e in _stmt_exprs(x)]
+    if k == "vcall":
+        return list(s[3])
     return []
 
 
